@@ -89,30 +89,38 @@ def heap_programs(quick):
 
 
 def array_programs(quick):
+    """(name, source, kind, info, args): the length comes from the command line, so that ONE executable per (element type,
+    constructor, code generator) serves all lengths (a compile costs ~10 s of the debug tool chain, a run a few ms); a few
+    literal lengths per element type are kept because the optimizing compiler treats a constant length differently."""
     progs = []
+    NARG = "std::argv(0i32).to_int64().get_or_panic()"
+
+    def src_for(make, n_expr, tail='println("size ${a.size()}");'):
+        return 'fn main() { println("start"); let n: Int64 = %s; let a = %s; %s }\n' % (n_expr, make, tail)
     for (ty, es, fillv) in ELEMS:
+        make = "Array[%s]::zero(n)" % ty if fillv is None else "Array[%s]::fill(n, %s)" % (ty, fillv)
         for n in LENGTHS:
             if quick and ty in ("String", "(Int64, Int64, Int64)") and n not in ("-1", "2305843009213693953", "9223372036854775807", "1000"):
                 continue
             name = "array-%s-%s" % (re.sub(r"\W+", "", ty), re.sub(r"[^0-9-]", "", n.replace(" - 1", "m1")))
-            make = "Array[%s]::zero(n)" % ty if fillv is None else "Array[%s]::fill(n, %s)" % (ty, fillv)
-            src = ('fn main() { println("start"); let n: Int64 = %s; let a = %s; println("size ${a.size()}"); }\n' % (n, make))
-            progs.append((name, src, "array", (es, ival(n))))
+            progs.append((name, src_for(make, NARG), "array", (es, ival(n)), [str(ival(n))]))
+            if n in ("-1", "2305843009213693953"):
+                progs.append((name + "-lit", src_for(make, n), "array", (es, ival(n)), []))
     # lengths right at the representability boundary of each element size (where len*es + header + alignment slack
     # crosses 2^63): a range check that is off by a word shows only here
     for (ty, es, fillv) in ELEMS:
+        make = "Array[%s]::zero(n)" % ty if fillv is None else "Array[%s]::fill(n, %s)" % (ty, fillv)
         base = (2 ** 63 - 1 - 16) // es
         ks = (-9, -8, -7, -4, -3, -2, -1, 0, 1, 2) if not quick else (-9, -8, -4, -3, -2, -1, 0, 1)
         for k in ks:
             n = base + k
-            make = "Array[%s]::zero(n)" % ty if fillv is None else "Array[%s]::fill(n, %s)" % (ty, fillv)
-            src = ('fn main() { println("start"); let n: Int64 = %d; let a = %s; println("size ${a.size()}"); }\n' % (n, make))
-            progs.append(("array-%s-edge%+d" % (re.sub(r"\W+", "", ty), k), src, "array", (es, n)))
+            progs.append(("array-%s-edge%+d" % (re.sub(r"\W+", "", ty), k), src_for(make, NARG), "array", (es, n), [str(n)]))
+            if k in (-1, 0):
+                progs.append(("array-%s-edge%+d-lit" % (re.sub(r"\W+", "", ty), k), src_for(make, "%d" % n), "array", (es, n), []))
     for (ctor, arg) in (("Vec[Int64]::new_with_capacity(n)", "-1"), ("Array[Int64]::fill(n, 7)", "-5"),
                         ("Array[Int64]::fill(n, 7)", "2305843009213693953"), ("Vec[UInt8]::new_with_capacity(n)", "9223372036854775807")):
         name = "array-ctor-%s-%s" % (re.sub(r"\W+", "", ctor)[:18], arg.replace("-", "m"))
-        src = 'fn main() { println("start"); let n: Int64 = %s; let a = %s; println("made"); }\n' % (arg, ctor)
-        progs.append((name, src, "array", (8 if "Int64" in ctor else 1, int(arg))))
+        progs.append((name, src_for(ctor, NARG, 'println("made");'), "array", (8 if "Int64" in ctor else 1, int(arg)), [arg]))
     return progs
 
 
@@ -147,10 +155,10 @@ def run(ctx):
     os.makedirs(work)
     backends = [("cannon", ["--cannon"]), ("boots", [])]
     gcs = [("swiper", [])] if quick else [("swiper", []), ("copy", ["--gc", "copy"]), ("sweep", ["--gc", "sweep"])]
-    progs = stack_programs(quick) + heap_programs(quick) + array_programs(quick)
+    progs = [p + ([],) for p in stack_programs(quick) + heap_programs(quick)] + array_programs(quick)
     # model predictions for the array family
     reqs = []
-    for (name, src, kind, info) in progs:
+    for (name, src, kind, info, args) in progs:
         if kind == "array":
             es, n = info
             reqs.append("cannon %d %d" % (n, es))
@@ -159,7 +167,7 @@ def run(ctx):
     pred = dict(zip(reqs, pred_out.splitlines()))
     jobs = []
     skipped_boots = []
-    for (name, src, kind, info) in progs:
+    for (name, src, kind, info, args) in progs:
         for (be, bfl) in backends:
             for (gc, gfl) in gcs:
                 if kind == "array" and gc != "swiper":
@@ -169,25 +177,42 @@ def run(ctx):
                     # a compile-time matter, not C13's; those frame sizes are exercised with the baseline generator
                     skipped_boots.append(name)
                     continue
-                jobs.append((name, src, kind, info, be, bfl, gc, gfl))
+                jobs.append((name, src, kind, info, be, bfl, gc, gfl, args))
 
-    def one(job):
-        name, src, kind, info, be, bfl, gc, gfl = job
-        d = os.path.join(work, "%s_%s_%s" % (name, be, gc))
+    # every distinct (source, code generator, collector) is compiled once, in parallel; then the cases run
+    import hashlib
+    units = {}
+    for job in jobs:
+        name, src, kind, info, be, bfl, gc, gfl, args = job
+        units.setdefault((src, be, gc), (bfl, gfl))
+
+    def compile_unit(item):
+        (src, be, gc), (bfl, gfl) = item
+        d = os.path.join(work, "u_%s_%s_%s" % (hashlib.sha256(src.encode()).hexdigest()[:12], be, gc))
         os.makedirs(d, exist_ok=True)
         open(os.path.join(d, "p.dora"), "w").write(src)
         rc, out = C.sh([tc["dora"], "compile"] + bfl + gfl + ["p.dora", "-o", "p"], cwd=d, timeout=900)
         if rc != 0 or not os.path.exists(os.path.join(d, "p")):
-            return job, "compile-failed", out[-400:].replace("\n", " | "), ""
-        rc, o, e = C.sh2(["./p"], cwd=d, timeout=180, env={"DORA_FLAGS": "--max-heap-size=%dM" % HEAP_MB})
+            return (src, be, gc), (None, out[-400:].replace("\n", " | "))
+        return (src, be, gc), (d, "")
+
+    with cf.ThreadPoolExecutor(max_workers=10) as ex:
+        exes = dict(ex.map(compile_unit, list(units.items())))
+
+    def one(job):
+        name, src, kind, info, be, bfl, gc, gfl, args = job
+        d, clog = exes[(src, be, gc)]
+        if d is None:
+            return job, "compile-failed", clog, ""
+        env = {"DORA_FLAGS": "--max-heap-size=%dM" % HEAP_MB}
+        rc, o, e = C.sh2(["./p"] + args, cwd=d, timeout=180, env=env)
         cls = classify(rc, o, e)
         if cls.startswith("signal") or cls == "timeout":
             # reproduce before believing a crash/hang on a loaded machine
-            rc2, o2, e2 = C.sh2(["./p"], cwd=d, timeout=360, env={"DORA_FLAGS": "--max-heap-size=%dM" % HEAP_MB})
+            rc2, o2, e2 = C.sh2(["./p"] + args, cwd=d, timeout=360, env=env)
             cls2 = classify(rc2, o2, e2)
             if cls2 != cls:
                 cls, o, e = cls2, o2, e2
-        shutil.rmtree(d, ignore_errors=True)
         return job, cls, o[-200:], e[:300]
 
     stats = dict(runs=0, hist={}, array_agree=0, array_cases=0, samples=[], compile_failed=0)
@@ -195,12 +220,13 @@ def run(ctx):
     with cf.ThreadPoolExecutor(max_workers=10) as ex:
         results = list(ex.map(one, jobs))
     for (job, cls, o, e) in results:
-        name, src, kind, info, be, bfl, gc, gfl = job
+        name, src, kind, info, be, bfl, gc, gfl, args = job
         stats["runs"] += 1
         stats["hist"]["%s:%s" % (kind, cls)] = stats["hist"].get("%s:%s" % (kind, cls), 0) + 1
         distinct.add((name, be, gc))
         replay = dict(kind="oracle", program=name, source=src, backend=be, gc=gc, observed=cls, stdout_tail=o, stderr_head=e,
-                      how_to_replay="dora compile %s p.dora -o p && DORA_FLAGS=--max-heap-size=%dM ./p" % (" ".join(bfl + gfl), HEAP_MB))
+                      args=args,
+                      how_to_replay="dora compile %s p.dora -o p && DORA_FLAGS=--max-heap-size=%dM ./p %s" % (" ".join(bfl + gfl), HEAP_MB, " ".join(args)))
         if cls == "compile-failed":
             stats["compile_failed"] += 1
             if len(ctx.notes) < 8:
@@ -250,8 +276,17 @@ def run(ctx):
     if not po["build_ok"] or po["failed"]:
         ctx.finding("proof:C13", dict(kind="proof", failed=po["failed"], log=po.get("build_log_tail", "")),
                     "property theorems of C13 no longer check: %s" % "; ".join(po["failed"])[:400], no_input=not ctx.violations)
-    cov = dict(obligations=po["obligations"], discharged=po["discharged"], checker_cmd=po["checker_cmd"],
-               trusted_base=po["trusted_base"] + ["hand-written arithmetic model DoraModel/Alloc/ArraySize.lean (tied by the array programs below)",
+    # the size model `cannonSize` of Props/C13.lean is PROVED equal to what the regenerated determine_array_size sequence
+    # computes (Props/C13Masm.lean); a break runs the machine leg's native-execution search under this property
+    from . import c01_masm
+    alloc = c01_masm.alloc_obligations(ctx)
+    po["obligations"] += alloc["obligations"]
+    po["discharged"] += alloc["discharged"]
+    po["theorems"] = dict(po["theorems"], **alloc["theorems"])
+    cov = dict(obligations=po["obligations"], discharged=po["discharged"], checker_cmd=po["checker_cmd"] + " (and DoraModel.Props.C13Masm)",
+               masm_alloc=dict(module=alloc["module"], obligations=alloc["obligations"], discharged=alloc["discharged"],
+                               runtime_rules=alloc["runtime_rules"], search=alloc.get("search")),
+               trusted_base=po["trusted_base"] + ["arithmetic model DoraModel/Alloc/ArraySize.lean: its baseline half is proved equal to the regenerated instruction sequence (Props/C13Masm.lean), the optimizing half is tied by the array programs below",
                                                   "generated programs + exit-status classification (checks/c13.py)"],
                theorems=po["theorems"], evaluations=stats["runs"], distinct_nontrivial=len(distinct),
                rule="one case = (program, code generator, collector): recursion with frames from a few bytes to 2 MB on main and "
@@ -259,7 +294,7 @@ def run(ctx):
                     "(negative, 2^31, 2^60..2^63-1, small); all cases are non-trivial (each must end in a specific trap or succeed)",
                histogram=stats["hist"], samples=stats["samples"] or [dict(note="none")],
                array_cases=stats["array_cases"], array_outcomes_as_model_predicts=stats["array_agree"],
-               compile_failed=stats["compile_failed"], heap_limit_mb=HEAP_MB,
+               compile_failed=stats["compile_failed"], heap_limit_mb=HEAP_MB, executables_compiled=len(units),
                not_run_with_optimizing_compiler=sorted(set(skipped_boots)))
     ctx.write_evidence("proof", cov, assumptions=[
         "only the size arithmetic is proved; real stack depth, OS guard pages and the allocation retry ladder are explored by programs",
